@@ -11,6 +11,7 @@ import (
 	"path/filepath"
 	"strings"
 	"sync"
+	"sync/atomic"
 	"time"
 
 	"golang.org/x/sys/unix"
@@ -39,6 +40,9 @@ type Node struct {
 	outputReader *os.File
 	scriptFile   *os.File
 	done         bool
+	// inFlight is true while a worker goroutine of the scheduler owns the
+	// node, i.e. from launch until its teardown has completed.
+	inFlight atomic.Bool
 }
 
 type NodeData struct {
